@@ -191,16 +191,27 @@ def run(ctx, eng):
                        'refill')
         if any(e.kind == 'catch' and 'StreamClosedError' in e.names
                for e in p.events) and p.exit != 'raise':
-            if not cm.calls_to(p, '_handle_data_on_closed_stream'):
+            if not cm.calls_to(p, '_handle_data_on_closed_stream') and \
+                    not [e for e in cm.calls_to(p, 'process_bytes')
+                         if cm.attr_chain(e.recv) ==
+                         'self._inbound_flow_control_window_manager']:
                 bad.append('closed-stream path without '
                            '_handle_data_on_closed_stream')
     ctx.ob('PAIR.refill', fi.qual, 'DATA on closed stream refills', charged
            > 0 and not bad, '; '.join(sorted(set(bad))) or
            'every path that charged the window and met a closed stream goes '
            'through _handle_data_on_closed_stream', node=fi.node)
-    fi = eng.m.func(H + '_handle_data_on_closed_stream')
+    fd = fi
+    fi = eng.m.func(H + '_handle_data_on_closed_stream', required=False)
+    if fi is not None:
+        refill_paths = cm.normal_paths(eng.I.run(fi))
+    else:
+        fi = fd     # written out in the DATA handler
+        refill_paths = [p for p in cm.normal_paths(eng.I.run(fd)) if any(
+            e.kind == 'catch' and 'StreamClosedError' in e.names
+            for e in p.events)]
     ok = False
-    for p in cm.normal_paths(eng.I.run(fi)):
+    for p in refill_paths:
         pb = cm.calls_to(p, 'process_bytes')
         if pb and pb[0].args and cm.attr_chain(pb[0].args[0]) == \
                 'frame.flow_controlled_length' and \
